@@ -713,6 +713,39 @@ def fault_specs(transport: str, tr: dict, second: bool = False) -> list:
     return out
 
 
+def settle(dev, link, fake) -> None:
+    """Let the LINK settle before the follow-up: everything in flight is gone (the device gave up its pending frames,
+    the host side of the OS driver was drained), so that only state kept inside the host OBJECT can still matter.  A
+    link that stays out of step (stale USB reports, half a frame) is the fault continuing, not a new call."""
+    for attr in ("inbuf", "pending"):
+        if hasattr(fake, attr):
+            getattr(fake, attr).clear()
+    if hasattr(fake, "taken"):
+        fake.taken = len(link.out)
+        fake.pause_at = None
+        fake.cut = False
+    if hasattr(fake, "idx"):
+        fake.idx = len(link.out)
+        fake.cut = False
+    for f in fake.faults:
+        f.applied = True
+    if hasattr(link, "queue"):
+        link.queue.clear()
+        link.await_ack = False
+    if hasattr(link, "rx"):
+        link.rx.clear()
+    dev.din = None
+    if hasattr(dev, "dout"):
+        dev.dout = None
+
+
+def base_follow_status(transport: str, cfg: dict) -> int:
+    """Status a healthy follow-up read reports on this configuration (SDP: 2 = HAB locked is not a failure)."""
+    if is_sdp(transport):
+        return 2 if cfg.get("locked") else 0
+    return 0
+
+
 def w_fault(task: dict) -> dict:
     transport, cfg, pre, op = task["transport"], task["cfg"], task["pre"], tuple(task["op"])
     base = clean_trace(transport, cfg, pre, op)
@@ -733,6 +766,23 @@ def w_fault(task: dict) -> dict:
         obs = run_op(dev, mb, op, cfg)
         n += 1
         tag = f"{transport}:{op[0]}:{faults[0][0]}" + ("+" + faults[1][0] if len(faults) > 1 else "")
+        dev_after = dev_state(dev)
+        # follow-up on the SAME host object, no further fault: state left behind by the failed/disturbed call (a buffer
+        # that is only emptied on the normal exit, a stale cached value) must not turn a later healthy read into
+        # "success with wrong data".  The link itself may be out of step after a fault: failing is fine, lying is not.
+        if not obs.get("horizon"):
+            fol = ("sread", 4, 8) if is_sdp(transport) else ("read", 0x10, 31)
+            settle(dev, link, fake)
+            try:
+                o2 = run_op(dev, mb, fol, cfg)
+            except Horizon:
+                o2 = {"horizon": True}
+            n += 1
+            if not o2.get("horizon") and "exc" not in o2 and o2.get("status") == base_follow_status(transport, cfg) \
+                    and o2.get("ret") not in FAILISH and bytes(o2["ret"]) != o2["exp"]["ret"]:
+                viol.append(("C10.stale-state-after-fault", f"{transport}:{op[0]}:{faults[0][0]}",
+                             f"{op} with fault {spec}, then a healthy {fol}: returned {bytes(o2['ret'])!r:.60} with success status, "
+                             f"device memory holds {o2['exp']['ret']!r:.60} | cfg={cfg} pre={pre}"))
         if obs.get("horizon"):
             viol.append(("C10.bounded-time", tag, f"{op} with fault {spec}: no termination within the horizon | cfg={cfg} pre={pre}"))
             outcomes["horizon"] = outcomes.get("horizon", 0) + 1
@@ -746,7 +796,7 @@ def w_fault(task: dict) -> dict:
             continue
         same_ret = obs["ret"] == base["obs"]["ret"]
         same_result = same_ret and obs["status"] == base["obs"]["status"]
-        same_device = dev_state(dev) == base["dev"]
+        same_device = dev_after == base["dev"]
         # SDP: status 2 ("HAB is locked") is information, not failure, when the fault-free run reports it too
         # a boolean True is a claim of success whatever status_code says ("False in case of any problem; True otherwise");
         # data results claim success together with a success status
